@@ -285,8 +285,15 @@ func (ex *Exec) applyContract(st *State, site string, fn *ssa.Function, ct *Cont
 		if ex.coverSeen[ckey] < 2 {
 			ex.coverSeen[ckey]++
 			ob := ex.obl(fmt.Sprintf("%s/cover:%s", ex.rootName, ckey), "cover")
+			var relaxed []string
+			for _, p := range prePC {
+				if !strings.Contains(p, "(forall ") && !strings.Contains(p, "(exists ") {
+					relaxed = append(relaxed, p)
+				}
+			}
 			ob.VCs = append(ob.VCs, VC{pc: prePC, goal: "false", note: "state before the call"},
-				VC{pc: append([]string(nil), st.pc...), goal: "false", note: "state after assuming the contract of " + name})
+				VC{pc: append([]string(nil), st.pc...), goal: "false", note: "state after assuming the contract of " + name},
+				VC{pc: relaxed, goal: "false", note: "quantifier-free part of the state before the call"})
 		}
 	}
 	k(st, res)
@@ -1140,6 +1147,7 @@ func (ex *Exec) callBySignature(st *State, site string, ct *Contract, sig *types
 		ex.blocking = append(ex.blocking, blockingOp{Site: site, Kind: "call", Cancellable: ct.blocksCancellable, Note: "call through a function value of type " + ct.short, Chan: ct.short})
 	}
 	pre := st.snapshotHeap()
+	ex.usedContracts[ct.key] = true
 	ex.havocModifies(st, ct, e, pre)
 	var res Val
 	switch sig.Results().Len() {
